@@ -134,6 +134,110 @@ func c13FoldFamily(f func(name string, parts [4]string, pos int)) {
 	}
 }
 
+// c13Tree: every path below base ("d" for directories, size for files).
+func c13Tree(base string) map[string]string {
+	m := map[string]string{}
+	filepath.Walk(base, func(p string, info os.FileInfo, err error) error {
+		if err == nil {
+			if info.IsDir() {
+				m[p] = "d"
+			} else {
+				m[p] = fmt.Sprint("f", info.Size())
+			}
+		}
+		return nil
+	})
+	return m
+}
+
+// c13RegistryHandlers: what server/internal/registry's handleDelete / handlePull hand to the client — the raw request
+// string — through the real Registry.Unlink and Registry.ResolveLocal over a scratch cache with decoys outside it: nothing
+// outside the cache directory changes, a removed manifest is one the cache held under that name, the error class is
+// ErrNameInvalid exactly when Merge(Parse(s), DefaultMask) is not fully qualified.
+func c13RegistryHandlers(t *testing.T, out *zzverif.Out) {
+	base := t.TempDir()
+	dir := filepath.Join(base, "l1", "l2", "cache")
+	c, err := blob.Open(dir)
+	if err != nil {
+		t.Fatal(err)
+	}
+	reg := &Registry{Cache: c}
+	put := func(p string) {
+		os.MkdirAll(filepath.Dir(p), 0o755)
+		os.WriteFile(p, []byte("{}"), 0o644)
+	}
+	fixture := func() {
+		put(filepath.Join(dir, "manifests/registry.ollama.ai/library/inside/latest"))
+		put(filepath.Join(dir, "manifests/h/n/Phi/t"))
+		put(filepath.Join(base, "l1/l2/manifests/registry.ollama.ai/library/decoy/latest"))
+		put(filepath.Join(base, "l1/l2/registry.ollama.ai/library/decoy/latest"))
+		put(filepath.Join(base, "l1/l2/decoyd/latest"))
+		put(filepath.Join(base, "l1/decoyd/latest"))
+	}
+	fixture()
+	mask := names.Parse(DefaultMask)
+	list := []string{"inside", "INSIDE", "h/n/phi:t", "decoy", "../decoy", "../../decoyd", "../decoyd:latest", "../manifests/registry.ollama.ai/library/decoy",
+		"registry.ollama.ai/library/../../decoy", "..", ".", "a/../b", "h/n/..:t", "/decoy", "//decoy", "decoy/", "decoy:", "..%2fdecoy", "decoy\x00",
+		"http://h/n/m:t", "x://decoy", "decoy@sha256:" + strings.Repeat("a", 64), "@sha256:" + strings.Repeat("a", 64), "", "nosuch", strings.Repeat("a", 81)}
+	root := zzverif.NewRng(zzverif.Seed() + 4700)
+	for i := 0; i < 40; i++ {
+		_, nm := zzverif.C13Name(root.Fork())
+		list = append(list, nm)
+	}
+	for _, s := range list {
+		op := "ext " + zzverif.Hex([]byte(s))
+		for _, which := range []string{"unlink", "resolvelocal"} {
+			before := c13Tree(base)
+			var rerr error
+			var removed bool
+			if which == "unlink" {
+				removed, rerr = reg.Unlink(s)
+				removed = removed && rerr == nil // Unlink returns (true, err) for an OS error such as ENAMETOOLONG
+			} else {
+				_, rerr = reg.ResolveLocal(s)
+			}
+			after := c13Tree(base)
+			out.Count("registry_handler_calls")
+			changed := false
+			for p, v := range after {
+				if before[p] != v {
+					changed = true
+					if !strings.HasPrefix(p, dir+"/") {
+						out.L2("handler-touches-outside", op, which+": created / changed outside the cache directory: "+p)
+					}
+				}
+			}
+			for p := range before {
+				if _, ok := after[p]; !ok {
+					changed = true
+					rel := strings.TrimPrefix(p, dir+"/manifests/")
+					q := strings.Split(rel, "/")
+					if !strings.HasPrefix(p, dir+"/manifests/") || len(q) != 4 {
+						out.L2("handler-touches-outside", op, which+": removed "+p)
+					} else if !strings.EqualFold(q[0]+"/"+q[1]+"/"+q[2]+":"+q[3], names.Merge(names.Parse(s), mask).String()) {
+						out.L2("handler-touches-outside", op, which+": removed the manifest of another name: "+rel)
+					}
+				}
+			}
+			if which == "unlink" {
+				fq := names.Merge(names.Parse(s), mask).IsFullyQualified()
+				if errors.Is(rerr, ErrNameInvalid) == fq {
+					out.L2("handler-validity-disagrees", op, fmt.Sprintf("Unlink: fully qualified=%v but err=%v", fq, rerr))
+				}
+				if removed {
+					out.Count("registry_unlinked")
+				}
+				if removed != changed {
+					out.L2("handler-touches-outside", op, fmt.Sprintf("Unlink reported %v but the directory changed=%v", removed, changed))
+				}
+			}
+			if changed {
+				fixture()
+			}
+		}
+	}
+}
+
 func TestVerifC13(t *testing.T) {
 	out := zzverif.NewOut()
 	defer out.Close()
@@ -151,6 +255,7 @@ func TestVerifC13(t *testing.T) {
 		}
 		return
 	}
+	c13RegistryHandlers(t, out)
 	root := zzverif.NewRng(zzverif.Seed() + 4000)
 	exh := zzverif.EnvInt("VERIF_EXH", 3)
 	zzverif.C13Exhaustive(zzverif.C13Alphabet, exh, func(s string) {
